@@ -122,13 +122,20 @@ def r01_3(run, model, trs, only_fns=None):
     run.rule("R01.3", "no arm of a pass drops a sub-term: every field of the matched variant that carries sub-terms is bound and used "
                       "(or the arm diverges / yields a constant / passes the whole node on / is a ledger entry)")
     n = 0
+    delegates = set()
+    if only_fns is not None:
+        # a named walker that hands part of its work to a child-listing traversal of the same file (`other.children()`) is audited there
+        for g in model.fns():
+            if g.body is not None and any(re.search(o, g.qual) for o in only_fns):
+                called = {S.callee_name(c) for c in S.walk(g.body) if c["k"] in ("Call", "MethodCall")}
+                delegates |= {t2.fn.qual for t2 in trs if t2.fn.file == g.file and t2.fn.name in called and t2.fn.name != g.name}
     for t in trs:
         if t.enum_name == "Ty":
             continue  # type traversals are audited by C07 R07.2 / C03
-        if only_fns is not None and not any(re.search(o, t.fn.qual) for o in only_fns):
+        if only_fns is not None and not any(re.search(o, t.fn.qual) for o in only_fns) and t.fn.qual not in delegates:
             continue
         ret = t.fn.node.get("ret") or ""
-        if TYPE_RET.match(ret.replace(" ", "")):
+        if TYPE_RET.match(ret.replace(" ", "")) and t.fn.qual not in delegates:
             continue
         variants = {v["name"]: v for v in t.enum["variants"]}
         scrut = scrutinee_names(t)
